@@ -456,8 +456,35 @@ def client_family(sim, stalled=False):
         files["w"] = wf
         n = 6 + sim.choose(25)
         for i in range(n):
-            k = sim.choose(12)
-            if k < 4:
+            k = sim.choose(15)
+            if k == 12:
+                def listdir_iter():
+                    ra = (1, 3, 50)[sim.choose(3)]
+                    names = sorted(a.filename for a in s.sftp.listdir_iter("dir", read_aheads=ra))
+                    if names != ["n%02d" % j for j in range(25)]:
+                        raise Violation(("C30", "listdir_iter-wrong-names"),
+                                        "listdir_iter(read_aheads=%d) yielded %d names: %s" % (ra, len(names), names[:6]), {"steps": steps})
+                step("listdir_iter", listdir_iter)
+            elif k == 13:
+                def listdir_iter_abandoned():
+                    it = s.sftp.listdir_iter("dir", read_aheads=(2, 50)[sim.choose(2)])
+                    next(it)
+                    it.close()
+                step("listdir_iter-abandoned", listdir_iter_abandoned)
+            elif k == 14:
+                def name_ops():
+                    c = s.sftp
+                    c.mkdir("sub")
+                    c.rename("small.bin", "sub/moved.bin")
+                    c.lstat("sub/moved.bin")
+                    c.posix_rename("sub/moved.bin", "small.bin")
+                    c.symlink("small.bin", "lnk")
+                    c.readlink("lnk")
+                    c.normalize(".")
+                    c.remove("lnk")
+                    c.rmdir("sub")
+                step("name-ops", name_ops)
+            elif k < 4:
                 cnt = (1, 20, 120, 250)[sim.choose(4)]
                 sz = (1, 10, 1000, 40000)[sim.choose(4)]     # 40000: one SFTP packet leaves in several channel sends
                 if sz == 40000:
